@@ -55,6 +55,13 @@ def _case(draw):
         if draw(st.booleans()):
             ov['new'] = False
             ov.setdefault('mdstyle', 'short')
+        # explicit !merge on mappings: what a mapping does anyway, so neither the fold nor the set of restricted paths changes -
+        # but the node now carries an explicit flag of another kind between a !notnew ancestor and the content below it
+        for p_, n in tdoc.walk(ov):
+            if (n['t'] == 'map' and n['items'] and n.get('del') is None and not any(m['t'] == 'seq' for _, m in tdoc.walk(n))
+                    and draw(st.integers(0, 3)) == 0):        # (lists below would inherit "merge" and combine index-wise)
+                n['del'] = False
+                n.setdefault('mdstyle', draw(st.sampled_from(['short', 'braces'])))
         case['override'] = ov
     else:
         # walk an existing path, then possibly break it
@@ -232,6 +239,8 @@ def run_case(case):
             nontrivial = True
             labels.add('missing-depth>=2')
         for p, n in tdoc.walk(ov):
+            if n.get('del') is False and n.get('new') is None and any(m.get('new') is False for q, m in tdoc.walk(ov) if len(q) < len(p) and list(p[:len(q)]) == list(q)):
+                labels.add('explicit-!merge-below-notnew')
             if n.get('new') is True and any(tuple(p[:i]) in [tuple(q) for q, m in tdoc.walk(ov) if m.get('new') is False] for i in range(len(p))):
                 nontrivial = True
                 labels.add('new-below-notnew')
